@@ -68,8 +68,62 @@ func poolCert(key string) *ssh.Certificate {
 	return c
 }
 
+// variantCert: certificates whose KeyID, type and window differ from the usual one (the frame only
+// carries them: whatever they say, the frame is well-formed and gets its one response)
+func variantCert(key string, v int) *ssh.Certificate {
+	ck := fmt.Sprintf("%s/v%d", key, v)
+	if c, ok := certCache[ck]; ok {
+		return c
+	}
+	a := vh.KeyIDAttrs{Prins: []string{"user_a"}, TransID: "22dde224", ReqUser: "user_a", ReqIP: "1.1.1.1", ReqHost: "host", HW: true, Touch: 1, Version: 1}
+	spec := vh.SSHCertSpec{Key: key, ValidAfter: 0, ValidBefore: ssh.CertTimeInfinity, Principals: []string{"user_a"}, Serial: uint64(100 + v)}
+	switch v {
+	case 0:
+		a.Touch = 4
+	case 1:
+		a.Touch = 7
+	case 2:
+		a.Touch = -1
+	case 3:
+		a.Touch = 1 << 40
+	case 4:
+		a.Usage = 1 << 40
+	case 5:
+		a.HW, a.Touch = false, 0
+	case 6:
+		a.FF, a.Touch = true, 0
+	case 7:
+		a.Nonce, a.HW = true, false
+	case 8:
+		a.Version = 2
+	case 9:
+		a.Prins, a.PrinsNil = nil, true
+	case 10:
+		spec.ValidBefore = 1000 // expired long ago
+	case 11:
+		spec.Host = true
+	}
+	spec.KeyID = a.Text()
+	switch v {
+	case 12:
+		spec.KeyID = "free text key id"
+	case 13:
+		spec.KeyID = ""
+	case 14:
+		spec.KeyID = a.Text() + "}"
+	case 15:
+		spec.CritOpts = map[string]string{"touchless-sudo-hosts": "a.example.com"}
+	}
+	c := vh.MakeSSHCert(spec)
+	certCache[ck] = c
+	return c
+}
+
 func genBlob(t *rapid.T, label string, damaged bool) []byte {
 	k := rapid.SampledFrom(vh.SSHKeyNames).Draw(t, label+"Key")
+	if !damaged && rapid.IntRange(0, 2).Draw(t, label+"Variant") == 1 {
+		return variantCert(k, rapid.IntRange(0, 15).Draw(t, label+"VariantKind")).Marshal()
+	}
 	kind := rapid.IntRange(3, 5).Draw(t, label+"Kind")
 	if damaged {
 		kind = rapid.IntRange(1, 2).Draw(t, label+"DKind")
@@ -563,7 +617,7 @@ func codeOf(b []byte) any {
 	return b[0]
 }
 
-const rule = "byte streams for ServeAgent over an in-memory connection: 0..8 frames from a grammar (add-hardware-certificate in the new and the legacy encoding with real, bit-flipped and truncated key / certificate blobs, junk; list slots; read / attest slot with slot names; wait with any code; the nine standard requests well-formed (built by the library client), truncated, with a lifetime constraint cut short, and with an inner length field overwritten by a boundary value (2^32-1..2^32-5, 2^31, 2^31-1, 2^24, the right value +-1, 0); unknown codes and extension with random bodies; frames of length 0, 1 and 2 with any code), followed by a clean end, a truncated length prefix, a truncated body or a declared length in {16 MiB+1, 2^30, 2^31, 2^32-1}; the served agent is a total recording agent that succeeds or fails every call with a text or with exactly io.EOF / io.ErrUnexpectedEOF. Oracle: the harness parses the stream itself; a well-formed frame gets exactly one response of the right kind (SUCCESS / error text, marshalled slot replies, standard reply code, byte-identical forwarded reply) with the arguments recorded by the served agent; a malformed frame is answered or ends the connection with a non-nil error; responses in request order; nothing after the end; clean end => nil; nil => as many responses as complete frames; truncated length prefix or truncated body (including a stream that ends right after a length prefix) => error; oversize => error and < 8 MiB allocated. Non-trivial: >= 2 frames mixing well-formed and malformed, or a non-clean tail after >= 1 frame."
+const rule = "byte streams for ServeAgent over an in-memory connection: 0..8 frames from a grammar (add-hardware-certificate in the new and the legacy encoding with real, bit-flipped and truncated key / certificate blobs - the certificates with the usual KeyID or with 16 variants (touch policy 4 / 7 / -1 / 2^40, large usage, other flag sets, version 2, null principals, free text, empty, a trailer, expired, host certificate, critical option) -, junk; list slots; read / attest slot with slot names; wait with any code; the nine standard requests well-formed (built by the library client), truncated, with a lifetime constraint cut short, and with an inner length field overwritten by a boundary value (2^32-1..2^32-5, 2^31, 2^31-1, 2^24, the right value +-1, 0); unknown codes and extension with random bodies; frames of length 0, 1 and 2 with any code), followed by a clean end, a truncated length prefix, a truncated body or a declared length in {16 MiB+1, 2^30, 2^31, 2^32-1}; the served agent is a total recording agent that succeeds or fails every call with a text or with exactly io.EOF / io.ErrUnexpectedEOF. Oracle: the harness parses the stream itself; a well-formed frame gets exactly one response of the right kind (SUCCESS / error text, marshalled slot replies, standard reply code, byte-identical forwarded reply) with the arguments recorded by the served agent; a malformed frame is answered or ends the connection with a non-nil error; responses in request order; nothing after the end; clean end => nil; nil => as many responses as complete frames; truncated length prefix or truncated body (including a stream that ends right after a length prefix) => error; oversize => error and < 8 MiB allocated. Non-trivial: >= 2 frames mixing well-formed and malformed, or a non-clean tail after >= 1 frame."
 
 func TestC12Stream(t *testing.T) {
 	vh.Run(t, vh.Spec[StreamCase]{Property: "C12", Name: "TestC12Stream", Rule: rule, Gen: genStream(false), Exec: exec})
